@@ -51,14 +51,16 @@ def h_equal(ctx, cfg):
             ctx.count('prod:' + ft)
     f = p.objs['f']
     try:
-        R = sigtools.signature(f)
+        with sym.concrete():
+            R = sigtools.signature(f)
     except Exception as e:
         ctx.require('discovery-does-not-raise', False, lambda: dict(exc=repr(e), features=p.label()))
         return
     if p.route == 'param-partial':
         # expected wrapper-level forwarding is declared on the function, then the bound callee is masked off
         pass
-    E, how = expected(p)
+    with sym.concrete():
+        E, how = expected(p)
     ctx.count('expected:' + how)
     if how == 'declared':
         # the written call can never succeed (the callee cannot be passed these fixed arguments at all): the
